@@ -435,7 +435,7 @@ func (s *streamGRPC) RecvMsg(m interface{}) error {
 	}
 	if stats := s.opts.statsHandler; stats != nil {
 		// TODO: raw payload stats.
-		b := b[headerLen:] // shadow
+		// b holds the message only: the 5 byte prefix was consumed above.
 		stats.HandleRPC(s.ctx, inPayload(false, m, b, time.Now()))
 	}
 	return nil
